@@ -5,7 +5,7 @@ CONSTANTS
   MaxFrames = 3
   Sizes = {1, 12, 23}
   RelSizes = FALSE
-  MaxRandSize = 0
+  MaxRandPk = 0
   Rates <- RatesOne
   Starts <- StartsOne
   Deltas = {3000}
